@@ -11,8 +11,15 @@
    panics at the third minted block), exhibited on the model below (begin_block_mint_refuted
    shows the reward bound needs a non-negative parameter; the D19 scenario halts both the
    model and the real chain). Every halt or hang of the implementation in any generated
-   history is reported as a violation with that history as replay. *)
-From SaoVerif Require Import Base.Prelude Base.Ints Base.Dec Model.Did Model.Types Model.Monad Model.Bank Model.Select Model.Node Model.Storage Model.Sao Model.Hooks Model.App Model.Spec Proofs.SelectFacts Proofs.Frame Proofs.Accumulator.
+   history is reported as a violation with that history as replay.
+
+   BeginBlock (Proofs/BeginLive.v): with a block reward of at most half the total reward, a halving period of at
+   least 2 and a non-negative APY, BeginBlock never panics in any state reachable from a state in which the pool totals
+   are the sums over providers, every provider's capacity is 10^6 bytes per pledged coin and the reward counter is below
+   the total -- three invariants proved preserved by EVERY operation (step_live), so no BeginBlock of any run halts the
+   chain (run_begin_block_never_halts). A block reward above half the total is finding D19 (begin_block_mint_refuted).
+   Panic-freedom of EndBlock is not proved; it is tested (halt detection on every generated history). *)
+From SaoVerif Require Import Base.Prelude Base.Ints Base.Dec Model.Did Model.Types Model.Monad Model.Bank Model.Select Model.Node Model.Storage Model.Sao Model.Hooks Model.App Model.Spec Proofs.SelectFacts Proofs.Frame Proofs.Accumulator Proofs.BeginLive.
 From RecordUpdate Require Import RecordUpdate.
 Import RecordSetNotations.
 
@@ -37,6 +44,30 @@ Theorem C02_random_sp_terminates : forall nodes pledges round0 seed count ignore
   random_sp nodes pledges round0 seed count ignore size <> SelHang.
 Proof. first [exact random_sp_terminates | apply random_sp_terminates]. Qed.
 Print Assumptions C02_random_sp_terminates.
+
+(* BeginBlock never panics in a state that satisfies the three invariants - with a block reward of at most half the total (the complement is finding D19) *)
+Theorem C02_begin_block_never_panics : forall cx s e,
+  Inv_pool s -> Inv_k s -> Inv_rem s -> params_ok s -> begin_block cx s <> Panic e.
+Proof. first [exact begin_block_never_panics | apply begin_block_never_panics]. Qed.
+Print Assumptions C02_begin_block_never_panics.
+
+(* the invariants are preserved by every operation *)
+Theorem C02_step_live : forall cx s op, Live s -> Live (fst (step cx s op)).
+Proof. first [exact step_live | apply step_live]. Qed.
+Print Assumptions C02_step_live.
+
+(* hence no BeginBlock of any run halts the chain *)
+Theorem C02_run_begin_block_never_halts : forall tr s cx e,
+  Live s -> begin_block cx (run tr s) <> Panic e.
+Proof. first [exact run_begin_block_never_halts | apply run_begin_block_never_halts]. Qed.
+Print Assumptions C02_run_begin_block_never_halts.
+
+Theorem C02_live_nonvacuous :
+  Live ex_genesis /\ Live (run ex_trace ex_genesis) /\
+  (exists po, pool (run ex_trace ex_genesis) = Some po /\ po_reward po = 3000 /\ 0 < po_pledged po) /\
+  forall e, begin_block (ex_cx 5) (run ex_trace ex_genesis) <> Panic e.
+Proof. first [exact live_nonvacuous | apply live_nonvacuous]. Qed.
+Print Assumptions C02_live_nonvacuous.
 
 Theorem C02_begin_block_mint_refuted : exists cx s s' d,
   step cx s OBeginBlock = (s', OutBlock BOk d) /\
